@@ -8,8 +8,8 @@
 static const time_t T0 = 1700000000;
 static unsigned char K32[32];
 
-enum { CF_NOKEY, CF_HS, CF_RS, CF_ES, CF_ED, NCF };
-static const char *cf_name[NCF] = { "no-key", "HS256+oct32", "RS256+rsa2048", "ES256+P-256", "EdDSA+ed25519" };
+enum { CF_NOKEY, CF_HS, CF_RS, CF_ES, CF_ED, CF_ES384, CF_ES512, CF_ED448, CF_PS, NCF };
+static const char *cf_name[NCF] = { "no-key", "HS256+oct32", "RS256+rsa2048", "ES256+P-256", "EdDSA+ed25519", "ES384+P-384", "ES512+P-521", "EdDSA+ed448", "PS256+rsa2048" };
 static jwk_set_t *cf_set[NCF];
 static jwt_checker_t *cf_chk[NCF];
 static char *VALID[NCF];       /* one valid token per configuration */
@@ -22,8 +22,12 @@ static void setup(void)
 	t = vk_jwk_text(vk_get("rsa2048a"), 0, NULL, NULL); cf_set[CF_RS] = jwks_create(t); free(t);
 	t = vk_jwk_text(vk_get("p256a"), 0, NULL, NULL); cf_set[CF_ES] = jwks_create(t); free(t);
 	t = vk_jwk_text(vk_get("ed25519a"), 0, NULL, NULL); cf_set[CF_ED] = jwks_create(t); free(t);
-	static const jwt_alg_t algs[NCF] = { JWT_ALG_NONE, JWT_ALG_HS256, JWT_ALG_RS256, JWT_ALG_ES256, JWT_ALG_EDDSA };
-	static const char *keyn[NCF] = { NULL, NULL, "rsa2048a", "p256a", "ed25519a" };
+	t = vk_jwk_text(vk_get("p384"), 0, NULL, NULL); cf_set[CF_ES384] = jwks_create(t); free(t);
+	t = vk_jwk_text(vk_get("p521"), 0, NULL, NULL); cf_set[CF_ES512] = jwks_create(t); free(t);
+	t = vk_jwk_text(vk_get("ed448"), 0, NULL, NULL); cf_set[CF_ED448] = jwks_create(t); free(t);
+	t = vk_jwk_text(vk_get("rsa2048a"), 0, NULL, NULL); cf_set[CF_PS] = jwks_create(t); free(t);
+	static const jwt_alg_t algs[NCF] = { JWT_ALG_NONE, JWT_ALG_HS256, JWT_ALG_RS256, JWT_ALG_ES256, JWT_ALG_EDDSA, JWT_ALG_ES384, JWT_ALG_ES512, JWT_ALG_EDDSA, JWT_ALG_PS256 };
+	static const char *keyn[NCF] = { NULL, NULL, "rsa2048a", "p256a", "ed25519a", "p384", "p521", "ed448", "rsa2048a" };
 	rc_rng_reseed(606);
 	for (int c = 0; c < NCF; c++) {
 		cf_chk[c] = jwt_checker_new();
@@ -266,10 +270,13 @@ static void pools(void)
 /* ------------------------------------------------------------------ enumeration */
 static void enumerate(void)
 {
+	int guard = vf_param >= 2;
+	if (guard)
+		vf_alloc_guard(1);   /* before the first library allocation: every block gets a guard page */
 	vf_alloc_install();
 	vk_load();
 	rc_rng_install();
-	lj_select_provider(vf_param);
+	lj_select_provider(vf_param & 1);
 	vf_now = T0;
 	setup();
 	pools();
@@ -280,6 +287,9 @@ static void enumerate(void)
 			continue;
 		for (int j = 0; j < N2; j++)
 			for (int k = 0; k < N3; k++) {
+				/* guard-page mode: the multi-kilobyte fragments (thousands of page mappings per parse) stay with the ASan runs */
+				if (guard && (strlen(POOL1[i]) > 2000 || strlen(POOL2[j]) > 2000 || (POOL3[k] && strlen(POOL3[k]) > 2000)))
+					continue;
 				size_t n = strlen(POOL1[i]) + strlen(POOL2[j]) + 70000;
 				char *tok = malloc(n);
 				if (POOL3[k])
@@ -304,6 +314,8 @@ static void enumerate(void)
 		if (!vf_case("assemblies without / with extra dots: header fragment '%s'", LBL1[i]))
 			continue;
 		for (int j = 0; j < N2; j++) {
+			if (guard && (strlen(POOL1[i]) > 2000 || strlen(POOL2[j]) > 2000))
+				continue;
 			size_t n = strlen(POOL1[i]) + strlen(POOL2[j]) + 32;
 			char *tok = malloc(n);
 			snprintf(tok, n, "%s.%s", POOL1[i], POOL2[j]); probe_all(tok);
@@ -318,9 +330,9 @@ static void enumerate(void)
 	/* (b) the complete d=1 byte neighbourhood of one valid token per configuration */
 	for (int c = 0; c < NCF; c++) {
 		size_t n = strlen(VALID[c]);
-		int stride = vf_thorough ? 1 : (c == CF_RS ? 6 : 2);
+		int stride = vf_thorough && !guard ? 1 : (c == CF_RS || c == CF_PS ? 6 : 2) * (guard ? 4 : 1);
 		for (size_t pos = 0; pos <= n; pos++) {
-			if (!vf_thorough && pos % stride && pos + 8 < n && pos > 8)
+			if (stride > 1 && pos % stride && pos + 8 < n && pos > 8)
 				continue;   /* quick: every stride-th position plus both ends */
 			if (!vf_case("d=1 neighbourhood of the valid %s token (%zu chars): position %zu, every byte substituted / inserted, deletion, truncation", cf_name[c], n, pos))
 				continue;
@@ -356,6 +368,8 @@ static void enumerate(void)
 		int maxl = 66000;
 		for (int len = 0; len <= maxl; len++) {
 			int take = len <= 300 || (len >= 4090 && len <= 4102) || (len >= 65530 && len <= 65542) || (vf_thorough && (len % 257 == 0 || (len >= 16380 && len <= 16390)));
+			if (guard && len > 4102)
+				take = 0;
 			if (!take)
 				continue;
 			if (!vf_case("length sweep: segment of %d chars in each position (raw and JSON-bearing)", len))
@@ -385,6 +399,28 @@ static void enumerate(void)
 			}
 			free(seg);
 			free(tok);
+			flush();
+		}
+	}
+	/* (e) a signature of every decoded length under every configuration's own header and under every ES/RS/Ed header */
+	{
+		static const char *hdrs[] = { "{\"alg\":\"HS256\"}", "{\"alg\":\"RS256\"}", "{\"alg\":\"PS256\"}", "{\"alg\":\"ES256\"}", "{\"alg\":\"ES384\"}", "{\"alg\":\"ES512\"}",
+					      "{\"alg\":\"ES256K\"}", "{\"alg\":\"EdDSA\"}" };
+		for (int L = 0; L <= 520; L++) {
+			if (L > 300 && !(L >= 382 && L <= 386) && !(L >= 510 && L <= 514))
+				continue;
+			if (!vf_case("signature of %d decoded bytes under every header x every configuration", L))
+				continue;
+			unsigned char sig[600];
+			for (int i = 0; i < L; i++)
+				sig[i] = (unsigned char)(0x41 + i * 7);
+			for (unsigned h = 0; h < sizeof hdrs / sizeof *hdrs; h++) {
+				char *input = tok_signing_input(hdrs[h], "{\"s\":1}");
+				char *tok = tok_attach(input, sig, L);
+				probe_all(tok);
+				free(tok);
+				free(input);
+			}
 			flush();
 		}
 	}
